@@ -109,6 +109,8 @@ class Gen:
                 u["utg"] = sorted(r.sample(range(1, self.ntk + 1), r.choice([1, 1, 2])))
             else:
                 u["ufd"] = sorted(r.sample(range(1, self.nfk + 1), r.choice([1, 1, 2])))
+        if u["fdk"] in (1, 2, 4) and r.random() < 0.2:
+            u["alt"] = 1          # numbers handed over in their other representation (1.0 for 1, -0.0 for 0): equal, so no change where equal
         return u
 
     # ---- operations ----------------------------------------------------------------------
@@ -208,7 +210,11 @@ class Gen:
                 ops.append({"op": "__repeat__"})      # the last remove / update once more, later in the history
                 continue
             if self.r.random() < p_read:
-                ops.append(self.read())
+                if ops and self.r.random() < self.focus.get("reread", 0.15):
+                    # one of the last reads once more, exactly as it was resolved (same query, same route): a cached answer is stale by now
+                    ops.append({"op": "__reread__", "back": self.r.randrange(4)})
+                else:
+                    ops.append(self.read())
             else:
                 a = self.write(tmax)
                 if a["op"] in ("remove", "drop_measurement", "update") and self.r.random() < self.focus.get("repeat", 0.25):
@@ -331,6 +337,55 @@ class Gen:
             ops.append({"op": "insert", "p": self.point(t), "m": NONE, "compact": 0})
             t += 1
         ops.append({"op": "all", "m": NONE, "sorted": 0})
+        return ops
+
+    def reread_scenario(self):
+        """a read through ONE Measurement handle (or the database), then writes that do not go through that handle,
+        then the very same read again through the same handle: an answer remembered from the first time is stale"""
+        r = self.r
+        ops, t = [], r.randrange(0, 3)
+        m = r.randrange(2)
+        for i in range(r.choice([2, 3, 4])):
+            p = self.point(t)
+            p["m"] = m if i % 3 != 2 else 1 - m
+            ops.append({"op": "insert", "p": p, "m": NONE, "compact": 0})
+            t += r.choice([0, 1])
+        for _ in range(r.choice([1, 2])):
+            kind = r.choice(["search", "search", "count", "get", "select", "contains", "get_timestamps", "get_tag_values", "get_field_keys", "len", "all"])
+            a = {"op": kind, "m": m, "via": "handle", "sticky": 1}
+            if kind in ("search", "count", "get", "select", "contains"):
+                a["q"] = self.atom()
+                self.adapt(a, 0.8)
+            if kind in ("search", "all"):
+                a["sorted"] = r.randrange(2)
+            if kind == "select":
+                a.update({"keys": [{"k": "time", "key": 0}, {"k": "tag", "key": 1}], "scalar": 0})
+            if kind == "get_tag_values":
+                a["keys"] = []
+            if r.random() < 0.25:
+                a.pop("via"), a.pop("sticky")          # the same through the database object
+                if kind in ("len", "all"):
+                    a["m"] = NONE                      # (only the handle has per-measurement len / all)
+            ops.append(a)
+            for _ in range(r.choice([1, 2])):
+                w = r.choice(["insert", "insert", "remove", "update", "drop", "remove_all", "insert_multiple"])
+                if w == "insert":
+                    p = self.point(t)
+                    p["m"] = m
+                    ops.append({"op": "insert", "p": p, "m": NONE, "compact": 0})
+                elif w == "insert_multiple":
+                    ps = [self.point(t), self.point(t)]
+                    ops.append({"op": "insert_multiple", "ps": ps, "m": m, "bad": 0})
+                elif w == "remove":
+                    ops.append(self.adapt({"op": "remove", "q": self.atom(), "m": r.choice([m, NONE])}, 0.8))
+                elif w == "update":
+                    ops.append(self.adapt({"op": "update", "q": self.atom(), "m": r.choice([m, NONE]), "u": self.update(), "fail": 0}, 0.8))
+                elif w == "drop":
+                    ops.append({"op": "drop_measurement", "m": m})
+                else:
+                    ops.append({"op": "remove_all"})
+                t += 1
+            ops.append({"op": "__reread__", "back": 0})
         return ops
 
     def alias_scenario(self):
